@@ -30,6 +30,8 @@ type Program struct {
 	rroMemo   map[*FuncInfo]int
 	cg        map[string][]string
 	dcg map[string][]string
+	fw  *fieldWriters
+	byMethodName map[string][]string
 }
 
 // Load loads all packages of the module rooted at dir with build tag verif.
